@@ -42,10 +42,11 @@ PositiveIndication(type, top, inner) ==
 VerdictOk(type, top, inner, outcome, errs) ==
   /\ outcome = "ok" => (~HasSevereError(top, inner) /\ PositiveIndication(type, top, inner))
   /\ outcome = "rpcerror" => errs = [k \in 1..NErrors(top, inner) |-> k]
-VerdictRule(type, top, inner, outcome, errs) ==
+(* same: every <rpc-error> of the reply is the same element (reported as number 1 each) *)
+VerdictRule(type, top, inner, outcome, errs, same) ==
   IF outcome = "ok" /\ HasSevereError(top, inner) THEN "ErrorReportedAsSuccess"
   ELSE IF outcome = "ok" /\ ~PositiveIndication(type, top, inner) THEN "SuccessWithoutPositiveIndication"
-  ELSE IF outcome = "rpcerror" /\ errs # [k \in 1..NErrors(top, inner) |-> k]
+  ELSE IF outcome = "rpcerror" /\ errs # [k \in 1..NErrors(top, inner) |-> IF same THEN 1 ELSE k]
        THEN "ErrorsNotThoseOfTheReply"
   ELSE "none"
 
